@@ -48,8 +48,8 @@ Theorem entry_changes_only_by_its_rotation : forall st oc id ks,
 Proof. exact step_entry. Qed.
 Print Assumptions entry_changes_only_by_its_rotation.
 
-(* CRASH SAFE (full).  For every state, every operation and every point at which the process may die inside it
-   (before any of its store mutations), every entry that was in the store is still there, unchanged, under its
+(* CRASH SAFE (full).  For every state, every operation and every point at which it may be interrupted (the
+   process dies at, or the store refuses, any one of its store mutations), every entry that was in the store is still there, unchanged, under its
    id, for whatever key manager is opened next. *)
 Theorem crash_safe : forall st o n id ks,
   snd (step Fixed st (o, Some n)) = OCrashed ->
